@@ -148,6 +148,22 @@ def run(tier):
                 if t.kind == "trait" and not t.f.get("hint") and any(k in ("owned_into", "ref_into") for k in kinds_of(t.name)):
                     if any(a.kind == "ghosts" and a.f.get("entries") and (a.container() is None or xform.cpkey(a.container()) == xform.cpkey(t.f["ty"])) for a in it.attrs):
                         return False
+        # struct-level ghosts name the counterpart's members: by identifier for a field-named counterpart, by index for a positional one.
+        # A mutation that re-targets a ghosts instruction to a counterpart of the other form leaves the documented domain
+        if it.kind == "struct":
+            for t in it.attrs:
+                if t.kind != "trait" or not any(k in ("owned_into", "ref_into") for k in kinds_of(t.name)):
+                    continue
+                form = {"{}": "named", "()": "tuple"}.get(t.f.get("hint"), it.shape if not t.f.get("hint") else None)
+                if form not in ("named", "tuple"):
+                    continue
+                for a in it.attrs:
+                    if a.kind == "ghosts" and (a.container() is None or xform.cpkey(a.container()) == xform.cpkey(t.f["ty"])):
+                        for e in a.f.get("entries") or []:
+                            if e.get("path") or e.get("ident") is None:
+                                continue
+                            if (form == "named") != (not str(e["ident"]).isdigit()):
+                                return False
         return True
     odd = []
     while len(odd) < nodd:
